@@ -29,6 +29,21 @@ def main():
     if a.cmd == "facts":
         print(facts.ensure(a.prop or "default"))
         return 0
+    if a.prop == "ALL":
+        # every property's quick check over one loaded program (used by the self-tests; MANIFEST registers the single checks)
+        d = facts.ensure("default")
+        prog = mir.Program(d)
+        prog.cfg = "default"
+        rc = 0
+        for name in sorted(props.PROPS):
+            t0 = time.time()
+            try:
+                obs, floors, m = props.PROPS[name]["run"](prog, "quick")
+                rc = max(rc, report.finish(name, "quick", t0, obs, floors, m))
+            except SystemExit as e:
+                print(str(e))
+                rc = 2
+        return rc
     t0 = time.time()
     p = props.PROPS.get(a.prop)
     if p is None:
